@@ -558,7 +558,7 @@ SUBCHECKS = [
                   "api:Population": 5, "api:Tree.from_swc": 10, "inj:hash-sign-inside-a-row": 10}),
     Sub("sorted", sorted_case, run_sorted, quick=600, thorough=4000, shards_quick=2,
         required={"unsorted": 20, "root-not-first": 20, "ids:sparse": 60, "ids:dense-shuffled": 40, "ids:dense-root-min-first": 16,
-                  "ids:parents-first-ids-down": 29, "ids:parents-first-ids-scattered": 40}),
+                  "ids:parents-first-ids-down": 29, "ids:parents-first-ids-scattered": 18}),
     Sub("population", population_case, run_population, quick=300, thorough=2500, shards_quick=2,
         required={"pop-enc:detect": 60, "files:ascii+utf-8": 20}),
     Sub("detect_late", detect_late_case, run_detect_late, quick=96, thorough=800, shards_quick=4,
